@@ -934,7 +934,21 @@ def time_tables(rng, k):
         if s not in seen:
             seen.add(s)
             uniq.append(t)
-    return uniq if k >= len(uniq) else rng.sample(uniq, k)
+    picked = uniq if k >= len(uniq) else rng.sample(uniq, k)
+    return [copy.deepcopy(t) for t in TIME_FIXED] + [t for t in picked if t not in TIME_FIXED]
+
+
+# always included (they isolate findings that depend on a particular shape of the time columns)
+TIME_FIXED = [
+    # first run of the code is a single row (no merge), the second run merges
+    {"cols": ["onset", "duration", "x", "y"], "rows": [["2", "2", "a", "n/a"], ["4", "0.5", "a", "a"], ["4.5", "1", "a", "a"]]},
+    # integer duration column, fractional extent
+    {"cols": ["onset", "duration", "x", "y"], "rows": [["1.0", "1", "a", "a"], ["2.5", "1", "a", "a"]]},
+    # n/a in the duration column
+    {"cols": ["onset", "duration", "x", "y"], "rows": [["1", "n/a", "a", "a"], ["2", "2", "a", "a"], ["4", "1", "b", "a"]]},
+    # all-float columns, three merged rows
+    {"cols": ["onset", "duration", "x", "v", "y"], "rows": [["1.0", "0.5", "a", "1", "b"], ["2.5", "0.5", "a", "n/a", "b"], ["4.0", "2.0", "a", "1.0", "b"]]},
+]
 
 
 def time_ok_for(name, p, tab):
@@ -1060,7 +1074,7 @@ def invalid_lists():
 # the workload
 # ------------------------------------------------------------------------------------------------------------
 SEQS_ALL = [list(s) for n in (1, 2, 3) for s in itertools.product(range(3), repeat=n)]
-SEQS_QUICK = [[0], [1], [2], [0, 0], [1, 0], [0, 1], [2, 1, 0], [0, 1, 0], [1, 2, 1], [0, 0, 0], [2, 0, 2], [1, 1, 0]]
+SEQS_QUICK = [[0], [2], [0, 0], [1, 0], [2, 1, 0], [0, 1, 0], [1, 2, 1], [2, 0, 2]]
 
 HIST_TABLE_SETS = {
     "generic": [
@@ -1109,9 +1123,9 @@ def build_cases(w):
     cases = []
     counts = {}
     # ---- meaning: single operation x tables
-    n_generic = (10, 14, 10) if quick else (155, 220, 120)
-    n_time = 40 if quick else 420
-    n_int = 14 if quick else 120
+    n_generic = (8, 10, 8) if quick else (155, 220, 120)
+    n_time = 28 if quick else 420
+    n_int = 10 if quick else 120
     for name in OPS8:
         psets = singles[name]
         if quick and len(psets) > 70:
@@ -1224,7 +1238,7 @@ def run(w: Workload):
     w.part("meaning of composed lists (2-3 ops), judged step by step on the real intermediate table", cases=info["composed"],
            bound="sampled lists x sampled tables", exhaustive=False)
     w.part("history / frame: one Dispatcher, 1-3 tables, every processing order", cases=info["history"],
-           bound="sequences of length <=3 over 3 tables with different column sets" + (" (12 sequences)" if w.quick else " (all 39)"),
+           bound="sequences of length <=3 over 3 tables with different column sets" + (" (8 sequences)" if w.quick else " (all 39)"),
            exhaustive=not w.quick)
     w.part("validation: lists failing the specification", cases=info["invalid"],
            bound="one violation per list (each required key, each type, minItems, uniqueItems, additional key, dependentRequired, "
